@@ -137,7 +137,7 @@ def do_runwt(sid, tier="quick", props=None):
     try:
         rc, out = sh("git apply %s" % os.path.join(d, "patch.diff"), cwd=wt)
         if rc != 0:
-            print("patch does not apply:", out)
+            print(sid, "INFRA: patch does not apply:", out[:200])
             return
         env = "VERIF_REPO=%s VERIF_EVIDENCE_DIR=/tmp/seedrun-evid VERIF_REPLAYS_DIR=/tmp/seedrun-evid" % wt
         for pid in props:
